@@ -13,18 +13,18 @@ convergence test, the iteration cap with its (argument-swapped) `warnings.warn` 
 final assertions.
 
 Matrices are `Vector (Vector α n) n`; the only two primitives the proofs use are
-`Mat.get` / `Mat.set` with `get_set`.
+`mget` / `mset` (and `vget` / `vset`) with their `get_set` lemmas.
 -/
 namespace Ens.Mle
 
 abbrev Vec (α : Type) (n : Nat) := Vector α n
 abbrev Mat (α : Type) (n : Nat) := Vector (Vector α n) n
 
-def Mat.get {α n} (X : Mat α n) (i j : Fin n) : α := (X[i.val])[j.val]
-def Mat.set {α n} (X : Mat α n) (i j : Fin n) (v : α) : Mat α n :=
+def mget {α n} (X : Mat α n) (i j : Fin n) : α := (X[i.val])[j.val]
+def mset {α n} (X : Mat α n) (i j : Fin n) (v : α) : Mat α n :=
   Vector.set X i.val ((X[i.val]).set j.val v)
-def Vec.get {α n} (x : Vec α n) (i : Fin n) : α := x[i.val]
-def Vec.set {α n} (x : Vec α n) (i : Fin n) (v : α) : Vec α n := Vector.set x i.val v
+def vget {α n} (x : Vec α n) (i : Fin n) : α := x[i.val]
+def vset {α n} (x : Vec α n) (i : Fin n) (v : α) : Vec α n := Vector.set x i.val v
 
 /-- Σ_{k<n} f k, left to right starting from 0 (numpy's order for fewer than 8 summands) -/
 def sumFin {α} [Add α] [OfNat α 0] : (n : Nat) → (Fin n → α) → α
@@ -50,7 +50,7 @@ variable {α : Type} [Add α] [Sub α] [Mul α] [Div α] [Neg α] [OfNat α 0] [
   [OfNat α 2] [OfNat α 4] [LT α] [DecidableLT α] [LE α] [DecidableLE α] [BEq α]
 variable {n : Nat}
 
-def rowSumF (X : Mat α n) (i : Fin n) : α := sumFin n (fun j => X.get i j)
+def rowSumF (X : Mat α n) (i : Fin n) : α := sumFin n (fun j => mget X i j)
 
 /-- `abs` -/
 def absV (x : α) : α := if x < 0 then -x else x
@@ -58,52 +58,52 @@ def absV (x : α) : α := if x < 0 then -x else x
 /-! ### diagonal update, L257-266 (pyx L37-46) -/
 
 def diagStep (C : Mat α n) (Crs : Vec α n) (st : St α n) (i : Fin n) : St α n :=
-  let tmp := st.X.get i i
-  let denom := Crs.get i - C.get i i
+  let tmp := mget st.X i i
+  let denom := vget Crs i - mget C i i
   let X' := if 0 < denom then
-      st.X.set i i (C.get i i * (st.rs.get i - st.X.get i i) / denom)
+      mset st.X i i (mget C i i * (vget st.rs i - mget st.X i i) / denom)
     else st.X
-  { X := X', rs := st.rs.set i (st.rs.get i + (X'.get i i - tmp)) }
+  { X := X', rs := vset st.rs i (vget st.rs i + (mget X' i i - tmp)) }
 
 /-- `if X[i,i] > 0: logl += C[i,i] * log(X[i,i] / X_rs[i])`, evaluated on the updated state -/
 def diagLogl (log : α → α) (C : Mat α n) (st' : St α n) (i : Fin n) (logl : α) : α :=
-  if 0 < st'.X.get i i then logl + C.get i i * log (st'.X.get i i / st'.rs.get i) else logl
+  if 0 < mget st'.X i i then logl + mget C i i * log (mget st'.X i i / vget st'.rs i) else logl
 
 /-! ### pair update, L269-299 (pyx L48-79) -/
 
 def coefA (C : Mat α n) (Crs : Vec α n) (i j : Fin n) : α :=
-  (Crs.get i - C.get i j) + (Crs.get j - C.get j i)
+  (vget Crs i - mget C i j) + (vget Crs j - mget C j i)
 
 def coefB (C : Mat α n) (Crs : Vec α n) (st : St α n) (i j : Fin n) : α :=
-  Crs.get i * (st.rs.get j - st.X.get i j) + Crs.get j * (st.rs.get i - st.X.get i j)
-    - (C.get i j + C.get j i) * (st.rs.get i + st.rs.get j - 2 * st.X.get i j)
+  vget Crs i * (vget st.rs j - mget st.X i j) + vget Crs j * (vget st.rs i - mget st.X i j)
+    - (mget C i j + mget C j i) * (vget st.rs i + vget st.rs j - 2 * mget st.X i j)
 
 def coefC (C : Mat α n) (st : St α n) (i j : Fin n) : α :=
-  ((-(C.get i j + C.get j i)) * (st.rs.get i - st.X.get i j)) * (st.rs.get j - st.X.get i j)
+  ((-(mget C i j + mget C j i)) * (vget st.rs i - mget st.X i j)) * (vget st.rs j - mget st.X i j)
 
 /-- `v = X[j,i] if a == 0 else (-b + sqrt(b*b - 4*a*c)) / (2*a)` -/
 def newV (sqrt : α → α) (C : Mat α n) (Crs : Vec α n) (st : St α n) (i j : Fin n) : α :=
   let a := coefA C Crs i j
   let b := coefB C Crs st i j
   let c := coefC C st i j
-  if a == 0 then st.X.get j i else (-b + sqrt (b * b - (4 * a) * c)) / (2 * a)
+  if a == 0 then mget st.X j i else (-b + sqrt (b * b - (4 * a) * c)) / (2 * a)
 
 def pairStep (sqrt : α → α) (C : Mat α n) (Crs : Vec α n) (st : St α n) (i j : Fin n) :
     Except Err (St α n) :=
   if coefC C st i j ≤ 0 then
     let v := newV sqrt C Crs st i j
-    let rs1 := st.rs.set i (st.rs.get i + (v - st.X.get i j))
-    let rs2 := rs1.set j (rs1.get j + (v - st.X.get j i))
-    .ok { X := (st.X.set i j v).set j i v, rs := rs2 }
+    let rs1 := vset st.rs i (vget st.rs i + (v - mget st.X i j))
+    let rs2 := vset rs1 j (vget rs1 j + (v - mget st.X j i))
+    .ok { X := mset (mset st.X i j v) j i v, rs := rs2 }
   else .error .assertion      -- `assert c <= 0`
 
 /-- `if X[i,j] > 0: logl += C[i,j]*log(X[i,j])/X_rs[i] + C[j,i]*log(X[j,i])/X_rs[j]`
 (the division by the row sum *outside* the logarithm is the code's; this quantity is only
 used for the convergence test) -/
 def pairLogl (log : α → α) (C : Mat α n) (st' : St α n) (i j : Fin n) (logl : α) : α :=
-  if 0 < st'.X.get i j then
-    logl + ((C.get i j * log (st'.X.get i j)) / st'.rs.get i
-            + (C.get j i * log (st'.X.get j i)) / st'.rs.get j)
+  if 0 < mget st'.X i j then
+    logl + ((mget C i j * log (mget st'.X i j)) / vget st'.rs i
+            + (mget C j i * log (mget st'.X j i)) / vget st'.rs j)
   else logl
 
 /-- `for i in range(n-1): for j in range(i+1, n)` -/
@@ -177,21 +177,21 @@ def piOk : PiCheck α → α → Bool
 def finish (P : Params α) (st : St α n) (nIter : Nat) : Except Err (Result α n) :=
   let capped := decide (nIter + 1 = P.maxIter)
   if capped && P.warnSwapped then .error .typeError else
-  let T : Mat α n := Vector.ofFn fun i => Vector.ofFn fun j => st.X.get i j / rowSumF st.X i
-  let tot := sumFin n (fun i => st.rs.get i)
-  let pi : Vec α n := Vector.ofFn fun i => st.rs.get i / tot
+  let T : Mat α n := Vector.ofFn fun i => Vector.ofFn fun j => mget st.X i j / rowSumF st.X i
+  let tot := sumFin n (fun i => vget st.rs i)
+  let pi : Vec α n := Vector.ofFn fun i => vget st.rs i / tot
   if (List.finRange n).all (fun i => isclose1 P.rowAtol P.rowRtol (rowSumF T i))
-      && piOk P.piCheck (sumFin n (fun i => pi.get i)) then
+      && piOk P.piCheck (sumFin n (fun i => vget pi i)) then
     .ok { T := T, pi := pi, X := st.X, rs := st.rs, nIter := nIter, warned := capped }
   else .error .assertion
 
 /-- `X = C + C.T; X_rs = X.sum(axis=1); C_rs = C.sum(axis=1)` and the two initial asserts -/
 def init (C : Mat α n) : Except Err (Vec α n × St α n) :=
-  let X : Mat α n := Vector.ofFn fun i => Vector.ofFn fun j => C.get i j + C.get j i
+  let X : Mat α n := Vector.ofFn fun i => Vector.ofFn fun j => mget C i j + mget C j i
   let rs : Vec α n := Vector.ofFn fun i => rowSumF X i
   let Crs : Vec α n := Vector.ofFn fun i => rowSumF C i
-  if (List.finRange n).all (fun i => decide (0 < rs.get i))
-      && (List.finRange n).all (fun i => decide (0 < Crs.get i)) then
+  if (List.finRange n).all (fun i => decide (0 < vget rs i))
+      && (List.finRange n).all (fun i => decide (0 < vget Crs i)) then
     .ok (Crs, { X := X, rs := rs })
   else .error .assertion
 
